@@ -10,7 +10,8 @@
 From Coq Require Import List Arith Bool ZArith QArith Qcanon.
 Import ListNotations.
 Local Open Scope nat_scope.
-From Flodym Require Import Base.ND Np.Einsum Model.Dims Model.Array Model.Instances Model.DF Model.Detect Proofs.DFProofs Proofs.DetectProofs.
+From Flodym Require Import Base.ND Np.Einsum Model.Dims Model.Array Model.Instances Model.DF Model.Detect Proofs.DFProofs Proofs.DetectProofs Proofs.ImportSpec.
+From Coq Require Import Permutation.
 
 (* to_df: one row per entry, in row-major order, each under its true labels; sparse: exactly the non-zero ones *)
 Theorem C11_to_df_lists_every_entry_once_under_its_labels :
@@ -79,3 +80,45 @@ Theorem C11_to_df_indexed_table_is_read_back :
   convert true lo hi tds false false (index_table tds vlab venc rl a) = OValues (avals a).
 Proof. exact detect_roundtrip_index. Qed.
 Print Assumptions C11_to_df_indexed_table_is_read_back.
+
+(* "Whenever from_df returns at all, every entry it sets comes from the unique row carrying that entry's labels":
+   for EVERY list of rows (any number, any order, any labels), default settings *)
+Theorem C11_every_entry_comes_from_the_unique_row_with_its_labels :
+  forall (R : Type) (rO : R) (ds : dimset) (rows : list (row R)) (v : list R), items_unique ds ->
+  import_rows R rO true 0 ds false false false false rows = Ok v ->
+  length v = size (dshape ds) /\
+  forall idx, Forall2 lt idx (dshape ds) ->
+    exists r, In r rows /\ r_labels R r = labels_of ds idx /\ r_value R r = Some (get rO (dshape ds) v idx)
+              /\ (forall r', In r' rows -> r_labels R r' = labels_of ds idx -> r' = r).
+Proof. exact import_every_entry_from_its_unique_row. Qed.
+Print Assumptions C11_every_entry_comes_from_the_unique_row_with_its_labels.
+
+(* what is accepted: exactly the tables with pairwise different, known label combinations, one row per entry, no empty value *)
+Theorem C11_accepted_tables :
+  forall (R : Type) (rO : R) (ds : dimset) (rows : list (row R)) (v : list R),
+  import_rows R rO true 0 ds false false false false rows = Ok v <-> accepted R ds rows /\ v = place R rO ds rows.
+Proof. exact import_accepts_iff. Qed.
+Print Assumptions C11_accepted_tables.
+
+(* the order of the rows is irrelevant, for the result and for a refusal *)
+Theorem C11_row_order_is_irrelevant :
+  forall (R : Type) (rO : R) (ds : dimset) (rows rows' : list (row R)) (v : list R), items_unique ds -> Permutation rows rows' ->
+  import_rows R rO true 0 ds false false false false rows = Ok v ->
+  import_rows R rO true 0 ds false false false false rows' = Ok v.
+Proof. exact import_rows_any_order. Qed.
+Print Assumptions C11_row_order_is_irrelevant.
+
+Theorem C11_roundtrip_after_any_permutation_of_the_rows :
+  forall (R : Type) (rO : R) (is_zero : R -> bool) (a : farr R) rows,
+  items_unique (adims a) -> length (avals a) = size (dshape (adims a)) ->
+  Permutation (to_rows R rO is_zero false a) rows ->
+  import_rows R rO true 0 (adims a) false false false false rows = Ok (avals a).
+Proof. exact roundtrip_any_row_order. Qed.
+Print Assumptions C11_roundtrip_after_any_permutation_of_the_rows.
+
+(* non-vacuity: a 2 x 2 table given in a scrambled order is accepted and placed by label *)
+Example ex_C11_scrambled_rows :
+  import_rows nat 0 true 0 [mk_dim 116 0 [2000; 2005]; mk_dim 114 1 [30; 31]] false false false false
+    [mk_row nat [2005; 30] (Some 3); mk_row nat [2000; 31] (Some 2); mk_row nat [2005; 31] (Some 4); mk_row nat [2000; 30] (Some 1)]
+  = Ok [1; 2; 3; 4].
+Proof. vm_compute. reflexivity. Qed.
